@@ -36,7 +36,12 @@ def cases(tier, seed):
                             "which": rng.choice(["pixels", "bins"])}
     # (2) creation in every input form (shares the C01 driver; the raw projection is validated here)
     cs = list(c01.cases("quick", seed + 1))
-    for c in (rng.sample(cs, 250) if tier == "quick" else cs):
+    if tier == "quick":
+        # a sample, plus every case of the special families (wide tables with narrow ID dtypes, chunks that create() must sort)
+        special = [c for c in cs if len(c[1]["table"]) >= 16 or c[1]["form"] in ("iter_unsorted", "iter_dict_unsorted")]
+        rest = [c for c in cs if c not in special]
+        cs = special + rng.sample(rest, 250)
+    for c in cs:
         yield c
     # (3) histories of producers
     T = gen.REPRESENTATIVE_TABLES
